@@ -221,6 +221,10 @@ func c03() {
 			}
 		}
 		spec := vlib.SpecOf(p, t.Name)
+		if i >= len(cat) && i%8 == 3 {
+			vlib.ShareBackingArray(p) // same policy value; the groups' lists are sub-slices of one array
+			run.Count("policies_whose_groups_share_one_array", 1)
+		}
 		c := vlib.Compile(p, t)
 		run.Count("policies", 1)
 		if !c.OK() {
